@@ -1,5 +1,4 @@
 /-
-<<<<<<< HEAD
 Refinement lemmas for the grid model (C03): every modelled operation acts on the
 abstraction `abs` exactly like the corresponding `Spec` operation.
 -/
@@ -284,100 +283,5 @@ theorem cellAt_styleLoop (rows : List Row) (q : Rect) (id : Nat)
   by_cases hh : q.c1 ≤ c ∧ c ≤ q.c2 ∧ q.r1 ≤ r ∧ r ≤ q.r2
   · rw [if_pos ((mem_rowMajor q c r).mpr hh), if_pos hh]
   · rw [if_neg (fun x => hh ((mem_rowMajor q c r).mp x)), if_neg hh]
-=======
-Helper lemmas for the grid path (C01), second part: `checkRow` leaves a dense row unchanged
-(uses C20's `cell_encode_decode`), hence save + open is the identity on dense sheets whose rows
-the trim does not touch.
--/
-import XlModel.Lemmas.Grid
-import XlModel.Props.C20
-namespace XlModel.Grid
-open XlModel XlModel.Ref
-
-theorem dec_nil : ∀ p, cellNameToCoordinates [] ≠ .ok p := by
-  intro p h
-  have : cellNameToCoordinates [] = .error .cellName := by decide
-  rw [this] at h; cases h
-
-theorem refOf_dec (j i : Nat) (hj : j < Facts.MaxColumns) (hi : i < Facts.TotalRows) :
-    refOf j i ≠ [] ∧ cellNameToCoordinates (refOf j i) = .ok ((j : Int) + 1, (i : Int) + 1) := by
-  obtain ⟨s, h1, h2⟩ := Props.C20.cell_encode_decode (j + 1) (i + 1) false (by omega) (by omega) (by omega) (by omega)
-  have e1 : ((j + 1 : Nat) : Int) = (j : Int) + 1 := by omega
-  have e2 : ((i + 1 : Nat) : Int) = (i : Int) + 1 := by omega
-  rw [e1, e2] at h1 h2
-  have hr : refOf j i = s := by simp [refOf, h1]
-  rw [hr]
-  refine ⟨?_, h2⟩
-  intro e; subst e; exact dec_nil _ h2
-
-theorem fillRefs_ok (rowNo : Nat) (cells : List Cell) (rc : Int)
-    (h : ∀ c ∈ cells, c.ref ≠ [] ∧ ∃ p, cellNameToCoordinates c.ref = .ok p) :
-    fillRefs rowNo rc cells = .ok cells := by
-  induction cells generalizing rc with
-  | nil => simp [fillRefs]
-  | cons c cs ih =>
-    obtain ⟨hne, p, hp⟩ := h c (by simp)
-    have hne' : (c.ref != []) = true := by simpa using hne
-    obtain ⟨col, row⟩ := p
-    simp only [fillRefs, hne', if_true, hp]
-    rw [ih _ (fun c' hc' => h c' (by simp [hc']))]
-    simp [Res.map]
-
-theorem checkRowOne_dense (i : Nat) (D : List Cell) (hi : i < Facts.TotalRows) (hD : DenseRow i D) :
-    checkRowOne (i + 1) D = .ok D := by
-  unfold checkRowOne
-  cases hD0 : D.isEmpty with
-  | true => simp
-  | false =>
-    simp only [Bool.false_eq_true, if_false]
-    have hall : ∀ c ∈ D, c.ref ≠ [] ∧ ∃ p, cellNameToCoordinates c.ref = .ok p := by
-      intro c hc
-      obtain ⟨j, hj, rfl⟩ := List.getElem_of_mem hc
-      have hr := (hD.2 j hj).1
-      have := refOf_dec j i (by have := hD.1; omega) hi
-      rw [hr]; exact ⟨this.1, _, this.2⟩
-    rw [fillRefs_ok _ _ _ hall]
-    simp only [Res.bind]
-    unfold rebuild
-    have hne : D ≠ [] := by intro e; subst e; simp at hD0
-    have hlen : 0 < D.length := List.length_pos_iff.mpr hne
-    have hlast : D.getLast? = some (D[D.length - 1]'(by omega)) := by
-      rw [List.getLast?_eq_getElem?]; simp [List.getElem?_eq_getElem (show D.length - 1 < D.length by omega)]
-    rw [hlast]
-    have hr := (hD.2 (D.length - 1) (by omega)).1
-    have hd := (refOf_dec (D.length - 1) i (by have := hD.1; omega) hi).2
-    simp only [hr, hd]
-    have : ¬ ((D.length : Int) < ((D.length - 1 : Nat) : Int) + 1) := by omega
-    simp [this]
-
-theorem filterMap_self {α} (f : α → Option α) (l : List α) (h : ∀ a ∈ l, f a = some a) : l.filterMap f = l := by
-  induction l with
-  | nil => rfl
-  | cons a t ih =>
-    simp [h a (by simp), ih (fun b hb => h b (by simp [hb]))]
-
-theorem zipWith_cells_self (s : List Row) :
-    List.zipWith (fun (r : Row) cs => { r with cells := cs }) s (s.map Row.cells) = s := by
-  induction s with
-  | nil => rfl
-  | cons r t ih => simp [ih]
-
-/-- a dense sheet whose rows are not touched by the trim (every cell has a value, or the row is
-blank and has no attributes) goes through save + open unchanged -/
-theorem cycle_untrimmed (s : List Row) (h : Dense s) (hu : ∀ row ∈ s, trimRowOne row = some row) :
-    cycle s = .ok s := by
-  have ht : trimRow s = s := filterMap_self _ _ hu
-  have hseq : Seq 0 s := by
-    apply seq_of_index
-    intro i hi
-    have := (h.2 i hi).1
-    omega
-  have hcr := checkRowAux_of 0 s (s.map Row.cells) (by simp) (by
-    intro i h1 h2
-    simp only [List.getElem_map, Nat.zero_add]
-    exact checkRowOne_dense i _ (by have := h.1; omega) (h.2 i h1).2)
-  rw [zipWith_cells_self] at hcr
-  simp only [cycle, densify, ht, checkSheet_seq s hseq, Res.bind, checkRow, hcr]
->>>>>>> wip/C01
 
 end XlModel.Grid
